@@ -387,10 +387,18 @@ def binop(it, op, a, b, inplace=False):
     if isinstance(a, float) or isinstance(b, float):
         raise Unsupported("float arithmetic with symbolic operand")
     ta, tb = it.to_int(a), it.to_int(b)
+    # A-time keeps WHICH representation an instant / span has where the harness tagged it (an instant as a datetime, as a number of seconds, a
+    # span): instant + span and instant - span stay that kind of instant (a datetime plus a timedelta is a datetime)
+    rep = None
+    tga, tgb = getattr(a, "tag", None), getattr(b, "tag", None)
+    if k in (ast.Add, ast.Sub) and tga in ("datetime", "num") and tgb in ("span", None) and not (tga == "datetime" and tgb is None):
+        rep = tga
+    elif k is ast.Add and tgb == "datetime" and tga == "span":
+        rep = "datetime"
     if k is ast.Add:
-        return IntSV(ta + tb)
+        return SV(ta + tb, "int", tag=rep) if rep else IntSV(ta + tb)
     if k is ast.Sub:
-        return IntSV(ta - tb)
+        return SV(ta - tb, "int", tag=rep) if rep else IntSV(ta - tb)
     if k is ast.Mult:
         return IntSV(ta * tb)
     if k is ast.FloorDiv:
